@@ -104,6 +104,10 @@ func (o *Options) ServerOptions() []string {
 		sargv = append(sargv, argstr)
 	}
 
+	if o.DeleteMode() {
+		sargv = append(sargv, "--delete")
+	}
+
 	if o.PreserveDevices() && !o.PreserveSpecials() {
 		sargv = append(sargv, "--devices")
 	}
